@@ -217,4 +217,4 @@ def run(ctx):
                 "files with hostile names; one `argv` event per mutating VCS command; non-trivial = distinct (command, argv)")
     for e in events[:3]:
         ctx.sample(dict(what=e["dbg"][:300]))
-    ctx.assumptions += ["argv is what a fake git/hg receives (NUL separated record); hg's message is read from the --logfile file", "config-sourced templates avoid quote/blank at both ends (config reader strips them: S13 under C18)"]
+    ctx.assumptions += ["file names without a newline: such a file cannot be configured at all (`File does not exist`, observation S21), so nothing reaches the VCS", "argv is what a fake git/hg receives (NUL separated record); hg's message is read from the --logfile file", "config-sourced templates avoid quote/blank at both ends (config reader strips them: S13 under C18)"]
